@@ -58,6 +58,8 @@ class PoolCheck:
 
     def families(self, tier):
         fams = [("random", self.n[tier])]
+        if KNOWN_CASES.get(self.cid):
+            fams.insert(0, ("known", len(KNOWN_CASES[self.cid])))
         if self.sweeps:
             from . import sweeps
 
@@ -73,6 +75,10 @@ class PoolCheck:
     def make_case(self, fam, seed, i, tier):
         if fam == "random":
             return gen.Gen(f"{seed}:{self.cid}:{i}", self.prof).scenario()
+        if fam == "known":
+            import copy
+
+            return copy.deepcopy(KNOWN_CASES[self.cid][i])
         from . import sweeps
 
         return sweeps.case(self.sweeps, seed, i, tier)
@@ -98,6 +104,24 @@ class PoolCheck:
             out["log"] = w.dump_log()
         out["sample"] = {"scenario": case, "events": r["events"], "log_head": w.dump_log()[:40]}
         return out
+
+
+# Hand-written histories that reproduce each recorded finding deterministically (so that the KNOWN-FINDING line
+# is printed on every run while the defect exists, and disappears when it is repaired).
+_SELF_CANCEL_BODY = {"pre": [["y", 1], ["op", {"op": "cancel_all", "pool": 0}]]}  # requests its own cancellation, then returns without suspending
+KNOWN_CASES = {
+    "C08": [
+        {"pools": [{"cls": "T", "size": 2}], "steps": [{"op": "apply", "pool": 0, "num": 1, "args": 0, "fname": "w", "marker": True, "bodies": [_SELF_CANCEL_BODY]}, {"op": "idle"}],
+         "final": {"probe": False, "gac": True, "gac_rex": False}, "known": "KF-D9-C08"},
+        {"pools": [{"cls": "S", "size": None, "args": 0, "bodies": [{"pre": [["y", 2], ["op", {"op": "stop_all", "pool": 0}]]}]}],
+         "steps": [{"op": "start", "pool": 0, "num": 1}, {"op": "idle"}], "final": {"probe": False, "gac": True, "gac_rex": False}, "known": "KF-D9-C08"},
+    ],
+    "C12": [
+        {"pools": [{"cls": "T", "size": 2}], "steps": [{"op": "apply", "pool": 0, "num": 1, "args": 0, "fname": "w", "marker": True, "bodies": [_SELF_CANCEL_BODY]}, {"op": "idle"},
+                                                         {"op": "flush", "pool": 0, "rex": False}, {"op": "idle"}],
+         "final": {"probe": True, "gac": False}, "known": "KF-D9-C12"},
+    ],
+}
 
 
 def has(*keys):
